@@ -4,7 +4,7 @@
    Modelled code (read line by line at the pinned tree; the text is pinned by digest in Proofs/DeriveP.v):
      pilota-build/src/plugin/mod.rs   AutoDerivePlugin::can_derive (212-279), on_item (286-289), on_emit (291-297),
                                       CanDerive, PredicateResult, PathCollector (197-206)
-     pilota-build/src/lib.rs          the two predicate closures of Builder::compile_with_config (375-403)
+     pilota-build/src/lib.rs          fn holds_kind and the two predicate closures of Builder::compile_with_config
      pilota-build/src/middle/ty.rs    TyKind, Visitor, walk_ty
      pilota-build/src/middle/workspace_graph.rs  WorkspaceGraph::from_items (the nested fn visit), is_nested
      pilota-build/src/middle/type_graph.rs       TypeGraph::from_items, is_nested (only if the downgrade consults it)
@@ -67,9 +67,19 @@ Definition top_name (t : dty) : string :=
 Definition mem_str (s : string) (l : list string) : bool := existsb (String.eqb s) l.
 
 (* ---- the predicate closures (lib.rs) ------------------------------------------------------------------------
-     let mut ty = ty; while let ty::Vec(_ty) = &ty.kind { ty = _ty; }
-     if matches!(ty.kind, <table>) { PredicateResult::No } else { PredicateResult::GoOn } *)
-Fixpoint peel_vec (t : dty) : dty := match t with DVec t' => peel_vec t' | _ => t end.
+     fn holds_kind(ty, rejected) = match &ty.kind {
+         ty::Vec(el) | ty::BTreeSet(el) | ty::Arc(el) => holds_kind(el, rejected),
+         ty::BTreeMap(k, v) => holds_kind(k, rejected) || holds_kind(v, rejected),
+         kind => rejected(kind) }
+     |ty| if holds_kind(ty, &|kind| matches!(kind, <table>)) { PredicateResult::No } else { PredicateResult::GoOn }
+   (repair of finding F-14k.  Before it the closures peeled Vec only -- `while let ty::Vec(_ty) = &ty.kind` -- and tested
+   the kind below: a btree container holding a double or a hash container got the derive.) *)
+Fixpoint holds_kind (tbl : list string) (t : dty) : bool :=
+  match t with
+  | DVec e | DBTreeSet e | DArc e => holds_kind tbl e
+  | DBTreeMap k v => holds_kind tbl k || holds_kind tbl v
+  | _ => mem_str (top_name t) tbl
+  end.
 
 Inductive bundle := PO | HEO.          (* #[derive(PartialOrd)]  |  #[derive(Hash, Eq, Ord)] *)
 
@@ -77,7 +87,7 @@ Definition pred_table (tr : bundle) : list string :=
   match tr with PO => po_pred_no | HEO => heo_pred_no end.
 
 (* true = PredicateResult::No *)
-Definition pred_no (tr : bundle) (t : dty) : bool := mem_str (top_name (peel_vec t)) (pred_table tr).
+Definition pred_no (tr : bundle) (t : dty) : bool := holds_kind (pred_table tr) t.
 
 (* ---- PathCollector (ty::Visitor with the default methods, walk_ty) --------------------------------------------- *)
 Fixpoint collect (t : dty) : list nat :=
@@ -88,13 +98,15 @@ Fixpoint collect (t : dty) : list nat :=
   | DMap k v | DBTreeMap k v => collect k ++ collect v
   end.
 
-(* ---- WorkspaceGraph::from_items, nested fn visit: Path | Vec | Set | Map, `_ => {}` for everything else ------- *)
+(* ---- WorkspaceGraph::from_items, nested fn visit: Path | Vec | Set | BTreeSet | Arc | Map | BTreeMap, `_ => {}` ----------
+   (repair of finding F-14s.  Before it BTreeSet, BTreeMap and Arc fell under `_ => {}`: a cycle closed through one of them
+   had no edge in this graph, and the downgrade of delayed items missed its members.) *)
 Fixpoint ws_visit (t : dty) : list nat :=
   match t with
   | DPath d => [d]
-  | DVec e | DSet e => ws_visit e
-  | DMap k v => ws_visit k ++ ws_visit v
-  | _ => []
+  | DVec e | DSet e | DBTreeSet e | DArc e => ws_visit e
+  | DMap k v | DBTreeMap k v => ws_visit k ++ ws_visit v
+  | DBase _ => []
   end.
 
 (* ---- TypeGraph::from_items: `if let ty::Path(p) = &ty.kind` ----------------------------------------------------- *)
@@ -319,23 +331,12 @@ Definition closed_b (g : dgraph) : bool :=
                      | None => true
                      end) g.
 
-(* every path PathCollector finds is an edge of the workspace graph (fails for paths below BTreeSet / BTreeMap / Arc) *)
+(* every path PathCollector finds is an edge of the workspace graph (true of every graph since the repair of F-14s:
+   DeriveP.ws_complete_all) *)
 Definition ws_complete_b (g : dgraph) : bool :=
   forallb (fun di => match deps (snd di) with
                      | Some ds => forallb (fun p => memb p (flat_map ws_visit ds)) (flat_map collect ds)
                      | None => true
-                     end) g.
-
-(* finding F-14k: a btree container (or Arc), possibly below lists, that holds an unsupported kind somewhere inside --
-   the predicate closures look at the top of the type only *)
-Definition opaque_top (t : dty) : bool :=
-  match t with DBTreeSet _ | DBTreeMap _ _ | DArc _ => true | _ => false end.
-Definition btree_with_unsupported (tr : bundle) (t : dty) : bool :=
-  opaque_top (peel_vec t) && negb (kinds_ok tr t).
-Definition btree_unsupported_b (tr : bundle) (g : dgraph) : bool :=
-  existsb (fun di => match deps (snd di) with
-                     | Some ds => existsb (btree_with_unsupported tr) ds
-                     | None => false
                      end) g.
 
 (* ---- for the correspondence runner: decisions per item, and the model's verdict on the document ------------------------- *)
